@@ -18,7 +18,8 @@ from engine.adapters import exprlib as X
 from engine.adapters import c03
 
 TEXT = {'s01': 'x+2', 's02': ' x  + 2 ', 's03': 'f(x)', 's04': 'x(2)', 's05': 'f', 's06': '2k', 's07': '2u',
-        's08': 'u*x', 's09': '(x', 's10': 'x+', 's11': 'f(u,)', 's12': 'g(x,x_1)', 's13': '2^-3', 's14': 'k(2%)/u'}
+        's08': 'u*x', 's09': '(x', 's10': 'x+', 's11': 'f(u,)', 's12': 'g(x,x_1)', 's13': '2^-3', 's14': 'k(2%)/u',
+        's15': '23', 's16': '2\t3', 's17': 'xx_1', 's18': 'x\nx_1'}
 
 
 def observe_call(parser, text, op, sc, shared):
@@ -182,7 +183,18 @@ def interleave_chunk(items, extra):
     repo.activate()
     from mitxgraders.helpers.calc import expressions as E
     from mitxgraders import FormulaGrader, DependentSampler
+    from mitxgraders.helpers.calc.math_array import MathArray
     sc = X.t_scope()
+    vec_vars = {k: MathArray([1.0, float(i + 2)]) for i, k in enumerate(sorted(sc[0]))}
+
+    def fresh_observe(text):
+        """the same evaluator() call with a brand-new parser swapped in for the shared one"""
+        shared = E.PARSER
+        E.PARSER = E.MathParser()
+        try:
+            return X.observe(text, lambda *a: E.evaluator(*a, max_array_dim=1), sc)
+        finally:
+            E.PARSER = shared
     out = []
     for seed, count, start in items:
         rng = random.Random(seed)
@@ -203,7 +215,22 @@ def interleave_chunk(items, extra):
                 except Exception:  # noqa
                     pass
                 continue
-            if pool and r < 0.35:
+            if r < 0.16:
+                # a formula that names things and then nests brackets so deeply that the grammar gives up with a
+                # non-parse exception; whatever it raises, nothing of it may reach later calls
+                try:
+                    E.parse('2k*x_1 + f(sin) + ' + '(' * rng.choice([30, 60, 120]) + 'x' + ')' * 120)
+                except BaseException:  # noqa
+                    pass
+                continue
+            if pool and r < 0.22:
+                # evaluate an earlier string in a scope of a different shape (vector-valued variables)
+                try:
+                    E.evaluator(rng.choice(pool)['text'], vec_vars, sc[1], sc[2])
+                except Exception:  # noqa
+                    pass
+                continue
+            if pool and r < 0.40:
                 case = dict(rng.choice(pool))           # repeat an earlier string (cache hit), maybe re-spaced
                 case['id'] = rid
                 if rng.random() < 0.5:
@@ -219,8 +246,11 @@ def interleave_chunk(items, extra):
                     E.parse(case['text'])
                 except Exception:  # noqa
                     pass
-            o = X.observe(case['text'], E.evaluator, sc)
+            o = X.observe(case['text'], lambda *a: E.evaluator(*a, max_array_dim=1), sc)
             rec = {'id': case['id'], 'toks': case['toks'], 'text': case['text'], 'obs': X.obs_record(o)}
+            of = fresh_observe(case['text'])
+            rec['same_as_fresh'] = X.same_observation(o, of) and all(o.get(k) == of.get(k) for k in ('vars', 'funcs', 'sufs'))
+            rec['fresh_class'] = of['c']
             out.append(rec)
     return out
 
@@ -289,6 +319,11 @@ def run(ctx):
     ctx.count(len(recs))
     byid = {r['id']: r for r in recs}
     ctx.sample({'interleaved_record': {k: recs[0][k] for k in ('text', 'obs')}})
+    for r in recs:
+        if not r['same_as_fresh']:
+            ctx.violation({'text': r['text'], 'aspect': 'interleaving-fresh'},
+                          'after a long history evaluator(%r) gives %s, with a freshly constructed parser %s' % (
+                              r['text'], r['obs']['c'], r['fresh_class']))
     for rid, clause in rej.items():
         r = byid[rid]
         ctx.violation({'text': r['text'], 'aspect': 'interleaving-' + clause},
